@@ -45,8 +45,9 @@ func refEnumStep(r refCfg, b byte) (refCfg, bool) {
 	return n, true
 }
 
-func c17grammar(c *core.Ctx) {
-	const R = "C17.grammar"
+func c17grammar(c *core.Ctx) { c17grammarAs(c, "C17.grammar") }
+
+func c17grammarAs(c *core.Ctx, R string) {
 	c.Rule(R, "rules/enum scanner, annotation-free fragment ≡ `[` JSON scalars without exponent, comma separated `]`: lock-step product of the pushdown system extracted from the enum scanner (per-byte summaries of all state methods, end-of-input table from Next/processTail, pair tables) with a reference recogniser, over all byte values except `/` outside string literals (annotations are not modelled by the reference) - every configuration where one side rejects a byte or accepts end of input and the other does not is reported with a shortest witness; values are assumed distinct (duplicate detection is data dependent)")
 	c.Floor(R, 25)
 	m := buildScanModel(c, "rules/enum")
